@@ -356,3 +356,48 @@ def p_repeat_general(ex, path, a, repeats=None):
     t = T((Axis("repeat", _simp(total)),), elem, kind=a_t.kind, prov="fresh")
     t.repeat_parts = list(zip(vals, reps))
     return t
+
+
+# ---- C17: nonzero / argmin / transpose -----------------------------------------------------------------------------
+@prim("ndarray.T", is_property=True)
+def p_transpose(ex, path, x):
+    if not isinstance(x, T) or x.ndim != 2:
+        raise Unsupported(".T of non-2-d")
+    return T((x.axes[1], x.axes[0]), lambda i, j, x=x: x.elem(j, i), kind=x.kind, prov="view:" + x.prov)
+
+
+@prim("np.nonzero")
+def p_nonzero(ex, path, c):
+    """np.nonzero of a (1, M) boolean array (one target row): indices (ti, si) of the true entries in row-major order"""
+    if not (isinstance(c, T) and c.ndim == 2 and c.axes[0].concrete() and c.axes[0].size == 1):
+        raise Unsupported("np.nonzero (only one-row boolean arrays have a contract)")
+    M = toI(c.axes[1].size)
+    K = ex.new_int("nb_nonzero")
+    si = _Fn(f"nonzero_col!{next(ex.fresh)}", IntSort(), IntSort())
+    rho = _Fn(f"nonzero_pos!{next(ex.fresh)}", IntSort(), IntSort())
+    i, j = Int("i!nz"), Int("j!nz")
+    path.add(And(0 <= K, K <= M))
+    path.add(ForAll([i], Implies(And(0 <= i, i < K), And(0 <= si(i), si(i) < M, toB(c.elem(0, si(i))), rho(si(i)) == i)), patterns=[si(i)]))
+    path.add(ForAll([i, j], Implies(And(0 <= i, i < j, j < K), si(i) < si(j)), patterns=[MultiPattern(si(i), si(j))]))
+    path.add(ForAll([j], Implies(And(0 <= j, j < M, toB(c.elem(0, j))), And(0 <= rho(j), rho(j) < K, si(rho(j)) == j)), patterns=[rho(j)]))
+    ax = Axis("nonzero", K)
+    t0 = T((ax,), lambda k: 0, kind="int", prov="fresh")
+    t1 = T((ax,), lambda k, si=si: si(toI(k)), kind="int", prov="fresh")
+    t1.nonzero_of = (c, si, rho, K)
+    return (t0, t1)
+
+
+@prim("np.argmin")
+def p_argmin(ex, path, x, axis=None):
+    """argmin along axis 0 of an (N, 1) array: an index whose entry is <= every entry"""
+    if not (isinstance(x, T) and x.ndim == 2 and x.axes[1].concrete() and x.axes[1].size == 1 and axis == 0):
+        raise Unsupported("np.argmin (only (N,1) arrays along axis 0 have a contract)")
+    N = toI(x.axes[0].size)
+    ex.oblige("np.argmin: non-empty", path, N >= 1, "precondition")
+    m = ex.new_int("argmin")
+    i = Int("i!am")
+    path.add(And(0 <= m, m < N))
+    path.add(ForAll([i], Implies(And(0 <= i, i < N), toR(x.elem(m, 0)) <= toR(x.elem(i, 0)))))
+    t = T((Axis("1", 1),), lambda k, m=m: m, kind="int", prov="fresh")
+    t.argmin_of = (x, m)
+    return t
